@@ -322,6 +322,19 @@ class Firewall(Router, discriminator="firewall"):
             self._process_dmz_outbound_frame(frame, from_network_interface)
             return
 
+    def _is_dmz_destination(self, dst_ip_address: IPV4Address) -> bool:
+        """
+        Whether a destination lies in the DMZ zone: on the DMZ port's network, or routed via a next hop on it.
+
+        :param dst_ip_address: The destination IP address of the frame.
+        """
+        if dst_ip_address in self.dmz_port.ip_network:
+            return True
+        if self.ip_is_in_router_interface_subnet(dst_ip_address):
+            return False
+        route = self.route_table.find_best_route(dst_ip_address)
+        return bool(route and route.next_hop_ip_address in self.dmz_port.ip_network)
+
     def _process_external_inbound_frame(self, frame: Frame, from_network_interface: RouterInterface) -> None:
         """
         Process frames arriving from the external network.
@@ -351,7 +364,7 @@ class Firewall(Router, discriminator="firewall"):
             self.session_manager.receive_frame(frame, from_network_interface)
         else:
             # If the destination IP is within the DMZ network, process the frame as DMZ inbound
-            if frame.ip.dst_ip_address in self.dmz_port.ip_network:
+            if self._is_dmz_destination(frame.ip.dst_ip_address):
                 self._process_dmz_inbound_frame(frame, from_network_interface)
             else:
                 # Otherwise, process the frame as internal inbound
@@ -419,7 +432,7 @@ class Firewall(Router, discriminator="firewall"):
             self.session_manager.receive_frame(frame, from_network_interface)
         else:
             # If the destination IP is within the DMZ network, process the frame as DMZ inbound
-            if frame.ip.dst_ip_address in self.dmz_port.ip_network:
+            if self._is_dmz_destination(frame.ip.dst_ip_address):
                 self._process_dmz_inbound_frame(frame, from_network_interface)
             else:
                 # If the destination IP is not within the DMZ network, process the frame as external outbound
